@@ -5,9 +5,13 @@
      int_ok z      : z is an integer (multiple of 4 quarter units) with |z| < 2^53
      bcol_wf/col_wf: stored column is well formed (ragged lengths consume the data exactly, StringArray rows have
                      the dtype width, int64 values satisfy int_ok)
-     mb_small      : python ints handed to a constructor satisfy int_ok *)
+     mb_small      : python ints handed to a constructor satisfy int_ok
+   and in Proofs/C19_rows.v:
+     mb_good k b   : b is acceptable for declared kind k (mb_ok) and mb_small
+     cell_good f c : cell c is acceptable for field f (nested: a row of acceptable cells for a non-empty sub-schema)
+     arg_good f a  : constructor argument a (python list, or Inner( *columns)) holds acceptable values for field f *)
 From Coq Require Import String ZArith List Bool Permutation.
-From BNP Require Import Base.Prims Model.C19 Proofs.C19.
+From BNP Require Import Base.Prims Model.C19 Proofs.C19 Proofs.C19_rows.
 Import ListNotations.
 Open Scope Z_scope.
 
@@ -24,7 +28,7 @@ Print Assumptions C19_aligned_program.
 Theorem C19_select_rows :
   forall ix t, aligned t = true ->
     aligned (m_select ix t) = true /\ m_to_rows (m_select ix t) = sel ix (m_to_rows t).
-Proof. intros ix t H. split; [exact (aligned_select ix t H)|exact (m_to_rows_select ix t H)]. Qed.
+Proof. exact (fun ix t H => conj (aligned_select ix t H) (m_to_rows_select ix t H)). Qed.
 Print Assumptions C19_select_rows.
 
 (* T2 (integer-array index): same rows as walking the index list over the list of rows (negative indices count
@@ -103,8 +107,8 @@ Print Assumptions C19_string_array_pad.
 (* T3 (per column): converting a python list by its declared field type keeps every value (strings, identifiers,
    encoded strings, int lists, numbers), for acceptable values with ints below 2^53 *)
 Theorem C19_column_roundtrip :
-  forall fx5 k l c,
-    bcol_of_cells_gen fx5 k l = Some c -> Forall (fun b => mb_ok k b = true) l -> Forall mb_small l ->
+  forall fx5 fx6 k l c,
+    bcol_of_cells_gen fx5 fx6 k l = Some c -> Forall (fun b => mb_ok k b = true) l -> Forall mb_small l ->
     map erase_b (bcol_cells c) = map erase_b l /\ bcol_len c = length l.
 Proof. exact column_roundtrip. Qed.
 Print Assumptions C19_column_roundtrip.
@@ -114,6 +118,63 @@ Theorem C19_transpose_involutive :
     zip_rows (zip_rows M) = M.
 Proof. exact (@zip_rows_involutive mcell). Qed.
 Print Assumptions C19_transpose_involutive.
+
+(* T3 (table level): from_entry_tuples(rows).tolist() = rows — at least one row, any schema over the nine column
+   kinds and nested tables, acceptable cells.  (m_from_rows_nonempty is the algorithm of the code with fix-2;
+   it is also the pinned algorithm when there is no nested-table field, next theorem.) *)
+Theorem C19_from_rows_roundtrip :
+  forall sch rows t, rows <> [] -> sch <> [] -> Forall (fun r => Forall2 cell_good sch r) rows ->
+    m_from_rows_nonempty sch rows = Some t ->
+    aligned t = true /\ erase_rows (m_to_rows t) = erase_rows rows.
+Proof. exact from_rows_roundtrip. Qed.
+Print Assumptions C19_from_rows_roundtrip.
+Theorem C19_from_rows_roundtrip_pinned_partial :
+  forall fx1 fx5 sch rows t, rows <> [] -> sch <> [] -> has_nested sch = false ->
+    Forall (fun r => Forall2 cell_good sch r) rows ->
+    m_from_rows_gen fx1 false fx5 sch rows = Some t ->
+    aligned t = true /\ erase_rows (m_to_rows t) = erase_rows rows.
+Proof. exact from_rows_roundtrip_pinned_partial. Qed.
+Print Assumptions C19_from_rows_roundtrip_pinned_partial.
+(* the pinned from_entry_tuples fails outside that guard: zero rows; a nested-table field *)
+Theorem C19_from_rows_pinned_refuted :
+  (exists sch, sch <> [] /\ m_from_rows_gen false false false sch [] = None)
+  /\ (exists sch rows, rows <> [] /\ Forall (fun r => Forall2 cell_good sch r) rows
+        /\ m_from_rows_gen false false false sch rows = None).
+Proof. exact from_rows_pinned_refuted. Qed.
+Print Assumptions C19_from_rows_pinned_refuted.
+
+(* T2 (add_fields): the result is aligned and its rows are the rows with the new cell appended *)
+Theorem C19_add_rows :
+  forall fx3 k l t t', t <> [] -> aligned t = true -> Forall (fun b => mb_ok k b = true) l -> Forall mb_small l ->
+    m_add_gen fx3 k l t = Some t' ->
+    aligned t' = true
+    /\ s_add (map (fun b => CB (erase_b b)) l) (erase_rows (m_to_rows t)) = Some (erase_rows (m_to_rows t')).
+Proof. exact add_rows. Qed.
+Print Assumptions C19_add_rows.
+(* T2 (replace): the result is aligned, and when the row count is kept (always, unless the replaced field is the
+   only one) its rows are the rows with cell f replaced by the new column's cell *)
+Theorem C19_replace_rows :
+  forall sch f a t t' fd, aligned t = true -> nth_error sch f = Some fd -> arg_good (snd fd) a ->
+    m_replace sch f a t = Some t' ->
+    aligned t' = true
+    /\ (m_len t' = m_len t ->
+        s_replace f (map erase (arg_cells a)) (erase_rows (m_to_rows t)) = Some (erase_rows (m_to_rows t'))).
+Proof. exact replace_rows. Qed.
+Print Assumptions C19_replace_rows.
+
+(* T5 (dict flattening, names only): for a field name without '.', from_dict's split of a flattened key recovers
+   (field, sub-field), and the sub-dictionary it builds for the nested field is exactly what todict emitted *)
+Theorem C19_dict_names :
+  forall name, ~ In dot name ->
+    (forall sub, split_dot (name ++ [dot] ++ sub) = (name, Some sub))
+    /\ split_dot name = (name, None)
+    /\ forall entries : list (list Z * dval),
+         sub_dict name (map (fun q => (name ++ [dot] ++ fst q, snd q)) entries) = entries.
+Proof.
+  exact (fun name H => conj (fun sub => split_dot_join name sub H)
+                            (conj (split_dot_nodot name H) (fun entries => sub_dict_of_todict name entries H))).
+Qed.
+Print Assumptions C19_dict_names.
 
 (* non-vacuity: a 3-row table with an identifier (width 4), a ragged int-list, an int and a nested column; reversing
    it, masking it and concatenating it with a table whose identifier column is wider give the expected rows *)
